@@ -46,6 +46,11 @@ def run_mutant(m, tier, suite):
                            cwd=ROOT, env=env, stdout=subprocess.PIPE, stderr=subprocess.STDOUT, text=True)
         want = 1 if m.get("kind", "break") == "break" else 0
         ok = r.returncode == want
+        if m.get("expect") == "missed":
+            # a documented open gap (DESIGN.md section 9.3): the break is real, the check is known not to see it
+            lines = [l for l in r.stdout.splitlines() if l.startswith(("VIOLATION", "  unlisted", "INFRA"))]
+            return dict(m=m, status="OPEN-GAP" if r.returncode == 0 else "OK" if r.returncode == 1 else "INFRA", rc=r.returncode,
+                        suite_ok=suite_ok, wall=round(time.time() - t0, 1), detail="\n".join(lines[:4]))
         lines = [l for l in r.stdout.splitlines() if l.startswith(("VIOLATION", "  unlisted", "INFRA"))]
         return dict(m=m, status="OK" if ok else "MISSED" if want == 1 else "FALSE-ALARM", rc=r.returncode,
                     suite_ok=suite_ok, wall=round(time.time() - t0, 1), detail="\n".join(lines[:4]))
@@ -72,7 +77,7 @@ def main():
     out = ["| mutant | property | kind | what | repo suite | check rc | verdict | s |", "|---|---|---|---|---|---|---|---|"]
     for r in res:
         m = r["m"]
-        if r["status"] != "OK": bad += 1
+        if r["status"] not in ("OK", "OPEN-GAP"): bad += 1
         print("%-34s %-4s %-12s rc=%s suite_ok=%s %ss  %s" % (m["id"], m["property"], r["status"], r.get("rc"), r.get("suite_ok"), r.get("wall"), (r.get("detail") or "").split("\n")[0][:150]))
         out.append("| %s | %s | %s | %s | %s | %s | %s | %s |" % (m["id"], m["property"], m.get("kind", "break"), m["what"],
                    {True: "passes", False: "FAILS (suite already catches it)", None: "n/a"}[r.get("suite_ok")], r.get("rc"), r["status"], r.get("wall")))
